@@ -10,6 +10,7 @@ CONSTANTS
   Lens = {}
   Atts = {}
   MaxFaultAttempts = 0
+  HardAt = 0
   Variant = "code"
 INVARIANTS TIntact TAttachOnce TRetryAcceptable TBufferSafe TNoMangle
 POSTCONDITION TraceAccepted
